@@ -311,6 +311,10 @@ func oracleC13(c *oracleCtx) {
 	oaModeHistories(c, "mode-after-build", c.n(300, 6000))
 	c13Tolerant(c, "join", "a = 1;\nb = 2;\n", "a = 1 b = 2;\n", 5)
 	c13Tolerant(c, "truncate", "function f() {\na = 1;\n}\n", "function f() {\na = 1;\n", 22)
+	// the statement before the missing separator ends in a token that spans lines
+	c13Tolerant(c, "join", "let s = `first\nsecond`;\nlet y = 2;\n", "let s = `first\nsecond` let y = 2;\n", 22)
+	c13Tolerant(c, "join", "x = \"a\\\nb\";\ny = 1;\n", "x = \"a\\\nb\" y = 1;\n", 10)
+	c13Tolerant(c, "join", "f(`a\n\nb`);\ng();\n", "f(`a\n\nb`) g();\n", 10)
 	c13SmartLines(c, "a = 1\n(b)(c)\n[d].k\n", "a = 1\n;(b)(c)\n;[d].k\n")
 	c13SmartLines(c, "setup() // prepare\r\n(function() { a; })()\r\n[d].k // x\r\n", "setup() // prepare\r\n;(function() { a; })()\r\n;[d].k // x\r\n")
 	c13SmartLines(c, "total = a + b\n(function() { a; })()\nn = -a\n[b].k\n", "total = a + b\n;(function() { a; })()\nn = -a\n;[b].k\n")
